@@ -1,8 +1,143 @@
 import Got.Drv.Common
-/- driver for the aes model family (properties C19): to be written -/
+import Got.Spec.Aes
+import Got.Model.Aes
+/-
+drv_aes: script lines (all byte strings in hex, "-" = empty)
+
+  enc <opts> <key> <pre> <pt> <spare> <tail>
+      backing array = pre ++ pt ++ spare ++ tail ; input = arr[|pre| : |pre|+|pt| : |pre|+|pt|+|spare|]
+      c := NewCipher(key, opts...) ; ct := c.Encrypt(input) ; then the same layout with ct in place of
+      pt is given to c.Decrypt.
+      output:  ct <hex> in <same|changed> arr <same|hex> rt <hex> darr <same|hex> conc ok
+           or  panic <iv|blocks|key>
+  dec <opts> <key> <ct>
+      output:  pt <hex>   or  panic <...>
+
+  <opts> = "-" or comma separated list of  cbc | cfb | iv:<hex>   (applied in order, as NewCipher does)
+
+The block functions are the Lean FIPS-197 AES of Got.Spec.Aes (independent of crypto/aes).
+"conc ok" is constant: in the model Encrypt/Decrypt are pure functions of (key, iv, input).
+At start-up the driver runs known-answer TESTS (FIPS-197 App. B, C.1–C.3; SP 800-38A F.2.1, F.3.13);
+a failing vector makes it exit with status 2 before reading any input.
+-/
 namespace Got.Drv.Aes
+open Got.Drv Got.Model.Aes
+
+def toBytes (l : List Nat) : List UInt8 := l.map UInt8.ofNat
+def hexOf (l : List UInt8) : String := toHex (l.map UInt8.toNat)
+def bytes? (s : String) : Option (List UInt8) := (parseHex? s).map toBytes
+
+def parseOpt (s : String) : Option Opt :=
+  if s = "cbc" then some .withCBC
+  else if s = "cfb" then some .withCFB
+  else if s.startsWith "iv:" then
+    let h := (s.drop 3).toString
+    if h.isEmpty then some (.withInitialVector []) else (bytes? h).map .withInitialVector
+  else none
+
+def parseOpts (s : String) : Option (List Opt) :=
+  if s = "-" then some [] else (s.splitOn ",").mapM parseOpt
+
+def showPanic : Panic → String
+  | .ivLength => "panic iv"
+  | .notFullBlocks => "panic blocks"
+  | .keySize => "panic key"
+
+def sameOr (a b : List UInt8) : String := if a = b then "same" else hexOf b
+
+def runEnc (opts : List Opt) (key pre pt spare tail : List UInt8) : String :=
+  match newCipher key opts, Got.Spec.Aes.mkKey key with
+  | .error p, _ => showPanic p
+  | .ok _, none => showPanic .keySize
+  | .ok c, some k =>
+    let E := Got.Spec.Aes.encryptBlock k
+    let D := Got.Spec.Aes.decryptBlock k
+    let arr := pre ++ pt ++ spare ++ tail
+    let st : Store := [arr]
+    let input : Slice := { id := 0, off := pre.length, len := pt.length, cap := pt.length + spare.length }
+    match c.encrypt E st input with
+    | .error p => showPanic p
+    | .ok (st1, out) =>
+      let ct := out.bytes st1
+      let inSame := if input.bytes st1 = pt then "same" else "changed"
+      let darr := pre ++ ct ++ spare ++ tail
+      let dst : Store := [darr]
+      let dinput : Slice := { id := 0, off := pre.length, len := ct.length, cap := ct.length + spare.length }
+      match c.decrypt E D dst dinput with
+      | .error p => showPanic p
+      | .ok (st2, out2) =>
+        joinSp ["ct", hexOf ct, "in", inSame, "arr", sameOr arr (st1.arr 0),
+                "rt", hexOf (out2.bytes st2), "darr", sameOr darr (st2.arr 0), "conc", "ok"]
+
+def runDec (opts : List Opt) (key ct : List UInt8) : String :=
+  match newCipher key opts, Got.Spec.Aes.mkKey key with
+  | .error p, _ => showPanic p
+  | .ok _, none => showPanic .keySize
+  | .ok c, some k =>
+    let st : Store := [ct]
+    let input : Slice := { id := 0, off := 0, len := ct.length, cap := ct.length }
+    match c.decrypt (Got.Spec.Aes.encryptBlock k) (Got.Spec.Aes.decryptBlock k) st input with
+    | .error p => showPanic p
+    | .ok (st1, out) => joinSp ["pt", hexOf (out.bytes st1)]
+
+def step (_ : Unit) (line : String) : Unit × String :=
+  match words line with
+  | ["enc", o, key, pre, pt, spare, tail] =>
+    match parseOpts o, bytes? key, bytes? pre, bytes? pt, bytes? spare, bytes? tail with
+    | some o, some key, some pre, some pt, some spare, some tail => ((), runEnc o key pre pt spare tail)
+    | _, _, _, _, _, _ => ((), "bad-op")
+  | ["dec", o, key, ct] =>
+    match parseOpts o, bytes? key, bytes? ct with
+    | some o, some key, some ct => ((), runDec o key ct)
+    | _, _, _ => ((), "bad-op")
+  | [] => ((), "")
+  | _ => ((), "bad-op")
+
+/-! known-answer tests -/
+
+def katBlock (key pt ct : String) : Bool :=
+  match bytes? key, bytes? pt, bytes? ct with
+  | some key, some pt, some ct =>
+    match Got.Spec.Aes.mkKey key with
+    | some k => Got.Spec.Aes.encryptBlock k pt == ct && Got.Spec.Aes.decryptBlock k ct == pt
+    | none => false
+  | _, _, _ => false
+
+def katMode (cfb : Bool) (key iv pt ct : String) : Bool :=
+  match bytes? key, bytes? iv, bytes? pt, bytes? ct with
+  | some key, some iv, some pt, some ct =>
+    match Got.Spec.Aes.mkKey key with
+    | some k =>
+      let E := Got.Spec.Aes.encryptBlock k
+      let D := Got.Spec.Aes.decryptBlock k
+      if cfb then Got.Spec.Aes.cfbEncrypt E iv pt == ct && Got.Spec.Aes.cfbDecrypt E iv ct == pt
+      else Got.Spec.Aes.cbcEncrypt E iv pt == ct && Got.Spec.Aes.cbcDecrypt D iv ct == pt
+    | none => false
+  | _, _, _, _ => false
+
+def selfTest : List (String × Bool) :=
+  let k128 := "2b7e151628aed2a6abf7158809cf4f3c"
+  let iv := "000102030405060708090a0b0c0d0e0f"
+  let pt2 := "6bc1bee22e409f96e93d7e117393172aae2d8a571e03ac9c9eb76fac45af8e51"
+  [ ("FIPS-197 App.B", katBlock k128 "3243f6a8885a308d313198a2e0370734" "3925841d02dc09fbdc118597196a0b32"),
+    ("FIPS-197 C.1", katBlock "000102030405060708090a0b0c0d0e0f" "00112233445566778899aabbccddeeff"
+        "69c4e0d86a7b0430d8cdb78070b4c55a"),
+    ("FIPS-197 C.2", katBlock "000102030405060708090a0b0c0d0e0f1011121314151617" "00112233445566778899aabbccddeeff"
+        "dda97ca4864cdfe06eaf70a0ec0d7191"),
+    ("FIPS-197 C.3", katBlock "000102030405060708090a0b0c0d0e0f101112131415161718191a1b1c1d1e1f"
+        "00112233445566778899aabbccddeeff" "8ea2b7ca516745bfeafc49904b496089"),
+    ("SP800-38A F.2.1 CBC-AES128", katMode false k128 iv pt2
+        "7649abac8119b246cee98e9b12e9197d5086cb9b507219ee95db113a917678b2"),
+    ("SP800-38A F.3.13 CFB128-AES128", katMode true k128 iv pt2
+        "3b3fd92eb72dad20333449f8e83cfb4ac8a64537a0b3a93fcde3cdad9f1ce58b"),
+    ("SP800-38A F.2.5 CBC-AES256", katMode false "603deb1015ca71be2b73aef0857d77811f352c073b6108d72d9810a30914dff4" iv
+        "6bc1bee22e409f96e93d7e117393172a" "f58c4c04d6e5f1ba779eabfb5f7bfbd6") ]
 
 def main (_args : List String) : IO Unit := do
-  IO.eprintln "drv_aes: not implemented"
+  let bad := selfTest.filter (fun t => !t.2)
+  if !bad.isEmpty then
+    IO.eprintln s!"drv_aes: known-answer test failed: {bad.map (·.1)}"
+    IO.Process.exit 2
+  lineLoop (← IO.getStdin) (← IO.getStdout) step ()
 
 end Got.Drv.Aes
